@@ -165,6 +165,15 @@ VERUS_UNITS = {
             ('if s.last().command == command { r } else { r.push(s.last()) }', 'if s.last().command == command { r } else { seq![s.last()] + r }', 'syscommand_runner'),
         ],
     },
+    'gc': {
+        'template': 'gc.rs.tpl',
+        'owners': [(r'garbage_collect_entities$', ['C10', 'C07']), (r'lemma_(skip|prefix)_contains$', ['C10'])],
+        'negctl': [
+            # a collector that is allowed to stop early would satisfy this weaker G1 only if the contract were vacuous
+            ('ensures final(world).pending().len() == 0,', 'ensures final(world).pending().len() == 0, final(world).alive() == old(world).alive(),', 'garbage_collect_entities'),
+            ('forall|e: Entity| #[trigger] old(world).pending().contains(e) ==> !final(world).alive().contains(e),', 'forall|e: Entity| #[trigger] old(world).alive().contains(e) ==> !final(world).alive().contains(e),', 'garbage_collect_entities'),
+        ],
+    },
     'dispatch': {
         'template': 'dispatch.rs.tpl',
         'owners': [(r'schedule_entity_reaction_impl$', ['C01', 'C14']), (r'ReactCache::schedule_(insertion|mutation)_reaction$', ['C01', 'C14'])],
@@ -250,13 +259,13 @@ PROPS = {
         note=ENVNOTE + '; the assumed effects of the callees in unit `revoke` are uninterpreted functions - their meaning is fixed by the Kani contracts, the correspondence is by review',
         explanation='token walk and the five type-wide revoke_* proved unbounded (Verus); per-entity removal and a compiled-code restatement bounded (Kani); history lemma L3'),
     'C07': dict(category='other', design_ref='DESIGN.md 5/C07 + 9.5',
-        text='Handle-balance contracts on the real code: ReactorMode::prepare gives a persistent reactor a plain handle (never ref-counted, hence never collected) and every other mode a signal for exactly the reactor\'s entity (Verus, verbatim); each of the 11 trigger types registers exactly ONE clone of the handle per trigger into the table its reactor_type() names, none for a despawn trigger on a dead entity, and register_entity_reactor stores none when the entity is gone (Verus, verbatim, generic); register_* store exactly the handle they are given (Verus, unbounded); revoke_* drop exactly one entry of the revoked reactor and no neighbour (Verus, any length; Kani restatement L<=4), EntityReactors::remove exactly the (type, id) matches (Kani, L<=4); register_reactors turns the mode into ONE handle and registers the whole bundle with it (Verus); DespawnAccessTracker holds the in-flight handle from start to end and end drops it (Verus); the signal itself is an exact reference count: the reactor\'s id is sent to the despawner exactly once, at the drop of the last clone (Kani on real std::sync::Arc + the assumed channel, 1..3 clones; lemma L4). Level other: garbage_collect_entities, schedule_despawn_reactions and the runner\'s collection points are NOT discharged (CBMC cost / outside Verus\' subset), so "despawned by the first collection after the last handle disappears" is carried only up to the despawn request.',
-        note=ENVNOTE + '; Arc/channel: sequential semantics; garbage collection itself assumed',
-        explanation='one clone per effective registration, one drop per revocation, in-flight handle dropped at end, exact ref-count of the signal; collection not covered'),
+        text='Handle-balance contracts on the real code: ReactorMode::prepare gives a persistent reactor a plain handle (never ref-counted, hence never collected) and every other mode a signal for exactly the reactor\'s entity (Verus, verbatim); each of the 11 trigger types registers exactly ONE clone of the handle per trigger into the table its reactor_type() names, none for a despawn trigger on a dead entity, and register_entity_reactor stores none when the entity is gone (Verus, verbatim, generic); register_* store exactly the handle they are given (Verus, unbounded); revoke_* drop exactly one entry of the revoked reactor and no neighbour (Verus, any length; Kani restatement L<=4), EntityReactors::remove exactly the (type, id) matches (Kani, L<=4); register_reactors turns the mode into ONE handle and registers the whole bundle with it (Verus); DespawnAccessTracker holds the in-flight handle from start to end and end drops it (Verus); the signal itself is an exact reference count: the reactor\'s id is sent to the despawner exactly once, at the drop of the last clone (Kani on real std::sync::Arc + the assumed channel, 1..3 clones; lemma L4). One collection (Verus, garbage_collect_entities verbatim modulo extraction rule 15; unit gc): the request channel is EMPTY on return - the collector never stops early - and every entity whose request was pending on entry is gone on return, so a reactor whose last handle has disappeared is despawned by the first collection that follows; requests for entities that are already gone are skipped. Level other: schedule_despawn_reactions and WHEN the runner collects are NOT discharged (CBMC cost / whole-tree histories); that despawning the entity drops its system state and captures is Bevy\'s component drop (assumed).',
+        note=ENVNOTE + '; Arc/channel: sequential semantics; in unit gc the channel receiver and World::resource are given exclusive (&mut) access in place of crossbeam\'s interior mutability',
+        explanation='one clone per effective registration, one drop per revocation, in-flight handle dropped at end, exact ref-count of the signal (Kani, bounded), one collection drains every pending request (Verus, unbounded); collection points in the runner not covered'),
     'C10': dict(category='other', design_ref='DESIGN.md 5/C10 + 9.5',
-        text='Kani discharges on the real AutoDespawner / AutoDespawnSignal (real std::sync::Arc, assumed FIFO channel) that for 1..3 clones dropped one by one, with the request channel polled after every drop, the prepared entity is requested for despawn exactly once, at the drop of the LAST clone, never while a clone exists, and with the right entity id (symbolic); AutoDespawner::new creates an UNBOUNDED request channel (no request can be lost or blocked however many are pending), and a repeated setup_auto_despawn keeps the existing despawner, so signals prepared earlier stay connected. Lemma L4 (Verus) generalises the count to k clones over the assumed Arc contract. NOT discharged: garbage_collect_entities (drain loop, despawn_recursive of descendants, skipping entities already gone) - a World + Arc + channel harness exceeds the cost rule and the function is outside Verus\' subset (closure effects); threads are not verified at all (Kani has no thread support): every concurrent history of drops is ASSUMED equivalent to a sequential one (Arc\'s atomic count, linearizable channel).',
-        note=ENVNOTE + '; threads not verified; garbage_collect_entities not under contract',
-        explanation='exact reference count up to the despawn request (Kani, real Arc, <=3 clones; lemma L4); collection and concurrency assumed'),
+        text='Kani discharges on the real AutoDespawner / AutoDespawnSignal (real std::sync::Arc, assumed FIFO channel) that for 1..3 clones dropped one by one, with the request channel polled after every drop, the prepared entity is requested for despawn exactly once, at the drop of the LAST clone, never while a clone exists, and with the right entity id (symbolic); AutoDespawner::new creates an UNBOUNDED request channel (no request can be lost or blocked however many are pending), and a repeated setup_auto_despawn keeps the existing despawner, so signals prepared earlier stay connected. Lemma L4 (Verus) generalises the count to k clones over the assumed Arc contract. Verus proves on the verbatim garbage_collect_entities (modulo extraction rule 15: `.ok().map(|e| e.despawn_recursive())` read as `if let Ok(e) = .. { e.despawn_recursive(); }`), for ANY number of pending requests including requests enqueued by the despawns themselves: on return the request channel is empty (G1: the collector never stops early), every entity whose request was pending on entry is not alive (G2), a request for an entity that is already gone is skipped and changes nothing - hence a second collection right after the first does nothing (idempotence) - and no entity is revived (G3); that despawn_recursive takes the descendants along is Bevy\'s contract (assumed). In that unit crossbeam\'s interior mutability (`&self` receiver) is modelled as exclusive access to the same FIFO state. Threads are not verified at all (Kani has no thread support): every concurrent history of drops is ASSUMED equivalent to a sequential one (Arc\'s atomic count, linearizable channel).',
+        note=ENVNOTE + '; threads not verified; termination of the collection loop not verified; channel receiver modelled with &mut access (unit gc)',
+        explanation='exact reference count up to the despawn request (Kani, real Arc, <=3 clones; lemma L4); one collection drains all requests and removes every requested entity (Verus, unbounded); concurrency assumed'),
     'C16': dict(category='other', design_ref='DESIGN.md 5/C16 + 9.5',
         text='Function-level contracts: EntityLocal::{entity,get,get_mut} expose exactly the entity that caused the run and the local data attached to it, writes land on that data, and every accessor panics outside a run of the reactor\'s own system (Kani, loop-free, value symbolic); the run\'s source comes from EntityReactionAccessTracker whose start claims the oldest entry parked for that system (Kani K.tracker.entity, lists L<=3/5; lemma L1); cleanup_reactor_data(id, e) removes the local data iff e\'s registration list holds no entry of reactor id any more and leaves entities without list alone (Kani, lists L<=2, all contents); EntityReactors::{insert,remove,iter_reactors} (Kani); ReactorType::get_entity and ReactorMode::prepare (a world reactor is Persistent => never ref-counted => never collected) (Verus, verbatim). Verus (verbatim, generic in the reactor type): Reactor::{add,add_starting_triggers,remove,run} and EntityReactor::{add,remove,system} queue exactly a PERSISTENT registration / a revocation for THE system command held by the reactor\'s resource (no system is spawned, despawned or duplicated), EntityReactor::add attaches the local data first and does nothing for a missing entity, EntityReactor::remove queues one local-data cleanup per unique entity of the removed bundle. Not covered: RevokeToken::iter_unique_entities itself (assumed), and "as last modified by earlier runs" across trees (runner).',
         note=ENVNOTE + '; Query::verif_single stands for a query over one entity',
